@@ -254,7 +254,10 @@ def scripted_cases(draw):
     return {'kind': 'scripted', 'cmds': cmds, 'mode': draw(st.sampled_from(['sync', 'sync', 'async'])),
             'maxread': draw(st.sampled_from([2000, 2000, 64, 7, 1])),
             # also cut after the first byte of (up to two) multi-byte characters of each output
-            'midchar': draw(st.booleans())}
+            'midchar': draw(st.booleans()),
+            # the REPL takes longer over every command than the spawn object's own default timeout allows; the
+            # timeout given to run_command() is what counts
+            'slow': draw(st.integers(0, 3)) == 0}
 
 
 def check_scripted(case, col=None):
@@ -265,6 +268,8 @@ def check_scripted(case, col=None):
         for j, ln in enumerate(lines):
             full = ln['out'] + (P if j == len(lines) - 1 else C)
             actions.append(['recuntil', b'\n'.hex()])
+            if case.get('slow') and j == len(lines) - 1:
+                actions.append(['s', 0.45])
             fullb = full.encode('utf-8')
             bcuts = set(len(full[:c].encode('utf-8')) for c in ln['cuts'])
             if case.get('midchar'):
@@ -287,6 +292,8 @@ def check_scripted(case, col=None):
     try:
         with guard('REPLWrapper over an existing spawn', allow=()):
             repl = replwrap.REPLWrapper(child, P, None)
+        if case.get('slow'):
+            child.timeout = 0.25
         for i, lines in enumerate(case['cmds']):
             cmd = '\n'.join('line%d' % j for j in range(len(lines)))
             want = ''.join(ln['out'] for ln in lines)
